@@ -444,6 +444,69 @@ pub fn run(ctx: &Ctx) -> (Spec, Report) {
         let _ = std::fs::remove_dir_all(&root);
     }
 
+    // ---- (c2) a valid crate reached through every spelling of its path: from inside the crate (`src`, `./src`, `.`),
+    //      from inside `src`, from the workspace root, through `..`, with a trailing slash, absolute, and a crate whose
+    //      own name is `src`. The crate name is derived from the path as given, before the file is read
+    {
+        let root = scratch.join("pathshapes");
+        for d in ["ws/mycrate/src/sub", "ws/src/src"] {
+            let _ = std::fs::create_dir_all(root.join(d));
+        }
+        std::fs::write(root.join("ws/mycrate/src/lib.rs"), "#[typeshare]\npub struct Good { pub a: u8 }\n").unwrap();
+        std::fs::write(root.join("ws/mycrate/src/sub/m.rs"), "#[typeshare]\npub enum Kind { A, B }\n").unwrap();
+        std::fs::write(root.join("ws/src/src/lib.rs"), "#[typeshare]\npub struct InSrc { pub a: u8 }\n").unwrap();
+        let abs = root.join("ws/mycrate").to_string_lossy().into_owned();
+        let abs_src = root.join("ws/mycrate/src").to_string_lossy().into_owned();
+        // (cwd below the scratch root, input directory as typed)
+        let shapes: Vec<(&str, String)> = vec![
+            ("ws/mycrate", "src".into()),
+            ("ws/mycrate", "./src".into()),
+            ("ws/mycrate", "src/".into()),
+            ("ws/mycrate", ".".into()),
+            ("ws/mycrate", "src/sub".into()),
+            ("ws/mycrate/src", ".".into()),
+            ("ws/mycrate/src", "sub".into()),
+            ("ws/mycrate/src", "..".into()),
+            ("ws/mycrate/src/sub", "../..".into()),
+            ("ws", "mycrate".into()),
+            ("ws", "mycrate/".into()),
+            ("ws", "mycrate/src/".into()),
+            ("ws", "./mycrate/../mycrate".into()),
+            ("ws", "src".into()),
+            ("ws", "src/src".into()),
+            ("ws/src", "src".into()),
+            ("ws/src/src", ".".into()),
+            ("ws", abs.clone()),
+            ("ws", abs_src.clone()),
+            ("ws", ".".into()),
+        ];
+        let mut k = 0;
+        for (cwd, dir) in &shapes {
+            for (lang, multi) in [(LangId::Ts, false), (LangId::Kotlin, true), (LangId::Swift, true), (LangId::Python, true), (LangId::Go, false)] {
+                k += 1;
+                let cfg = LangCfg::basic(lang);
+                let out = if multi { root.join(format!("out{k}")) } else { root.join(format!("out{k}.{}", lang.ext())) };
+                let args = cli_args(lang, &cfg, multi, &out, &[dir.as_str()]);
+                let o = run_bin(BinRun { cli: &cli, args: args.clone(), env: vec![], cwd: &root.join(cwd), strace: None, wall_limit: Duration::from_secs(30) });
+                rep.eval(1);
+                rep.count("cli_runs", 1);
+                rep.count("path_shape_runs", 1);
+                let mode = if multi { "multi-file" } else { "single-file" };
+                let shape = if dir.starts_with('/') { "absolute".to_string() } else { format!("{}:{dir}", cwd.trim_start_matches("ws").trim_start_matches('/')) };
+                rep.cell(format!("path-shape|{shape}|{}|{mode}|{}", lang.name(), match &o.exit { Exit::Code(0) => "exit0".to_string(), Exit::Code(_) => "exit-nonzero".into(), Exit::Signal(_) => "signal".into(), Exit::Timeout(_) => "watchdog".into() }));
+                let v = judge_bin(ctx, &o, out.exists(), &[], "path-shape", mode, lang.name());
+                for (sig, what) in v.sigs {
+                    if sig.starts_with("INCONCLUSIVE") {
+                        rep.inconclusive("watchdog-without-diagnosis", json!({"class": "path-shape", "diag": what}));
+                    } else {
+                        rep.violate(format!("{sig}|path-shape"), format!("input directory `{dir}` from `{cwd}` ({}, {mode}): {what}", lang.name()), json!({"cwd": cwd, "args": args, "stderr": o.stderr.chars().take(1500).collect::<String>()}));
+                    }
+                }
+            }
+        }
+        let _ = std::fs::remove_dir_all(&root);
+    }
+
     // ---- (d) one fatal file among many valid ones: the walker threads race with the collector's early return ----
     {
         let root = scratch.join("fatal-among-many");
